@@ -17,6 +17,7 @@ import hashlib
 import json
 import multiprocessing as mp
 import os
+from fractions import Fraction
 import sys
 import time
 import traceback
@@ -480,10 +481,16 @@ class Engine:
                 trigmap[val[2].decl().name()] = ('cosf', 'sinf')
         meta['trig'] = trigmap
         univ = []
+        isk = [s for s in sk.values() if s.kind == 'int']
         for (nn, f) in ctx.ghost.get('univ', []):
-            for name, s in sk.items():
-                if s.kind == 'int':
-                    univ.append(z3.Implies(z3.And(s.e >= 0, s.e < zint(nn)), f(s)))
+            if isinstance(nn, tuple):
+                import itertools
+                if len(isk) ** len(nn) <= 64:
+                    for tup in itertools.product(isk, repeat=len(nn)):
+                        univ.append(z3.Implies(z3.And(*[z3.And(a.e >= 0, a.e < zint(b)) for a, b in zip(tup, nn)]), f(tup)))
+                continue
+            for s in isk:
+                univ.append(z3.Implies(z3.And(s.e >= 0, s.e < zint(nn)), f(s)))
         # exceptional behaviour
         if out[0] == 'raise':
             exc = out[1]
@@ -636,6 +643,10 @@ def _solve(job):
     """ladder: z3 default (short) -> z3 qfnra-nlsat -> z3 default (long); verdicts never depend on which rung answered"""
     idx, smt, timeout_ms, seed = job
     t0 = time.time()
+    if os.environ.get('VERIF_DUMP_SMT'):
+        import hashlib
+        os.makedirs(os.environ['VERIF_DUMP_SMT'], exist_ok=True)
+        open(os.path.join(os.environ['VERIF_DUMP_SMT'], f'{idx}-{hashlib.md5(smt.encode()).hexdigest()[:8]}.smt2'), 'w').write(smt)
     try:
         ctx = z3.Context()
         base = z3.Solver(ctx=ctx)
@@ -671,10 +682,25 @@ def _solve(job):
         model = None
         if r == z3.sat:
             m = s.model()
+            # prefer a counterexample with small integers (array extents, box corners): replay builds real arrays of that size
+            try:
+                ints = [d() for d in m.decls() if d.arity() == 0 and d.range().kind() == z3.Z3_INT_SORT]
+                for bound in (12, 200):
+                    s2 = z3.Solver(ctx=ctx)
+                    s2.set('timeout', 1500)
+                    s2.add(*asserts)
+                    s2.add(*[z3.And(c >= -bound, c <= bound) for c in ints])
+                    if s2.check() == z3.sat:
+                        m2 = s2.model()
+                        if all(_holds_in(m2, a) for a in asserts):
+                            m = m2
+                            break
+            except z3.Z3Exception:
+                pass
             # a counterexample is only believed if the model really satisfies every assertion (guards against incomplete
             # nonlinear + uninterpreted-function combinations); otherwise the obligation is undecided
             try:
-                bad = [a for a in asserts if not z3.is_true(m.eval(a, model_completion=True))]
+                bad = [a for a in asserts if not _holds_in(m, a)]
             except z3.Z3Exception:
                 bad = [None]
             if bad:
@@ -697,6 +723,38 @@ def _solve(job):
         return idx, status, time.time() - t0, model, backend, reason
     except Exception as e:      # noqa
         return idx, 'error', time.time() - t0, None, 'z3', f'{type(e).__name__}: {e}'
+
+
+def _holds_in(m, a):
+    """does the model satisfy the assertion?  z3's evaluator leaves to_int of an irrational algebraic number unevaluated; those are
+    floored from a 40-digit rational enclosure (refused when the number is that close to an integer)"""
+    v = m.eval(a, model_completion=True)
+    if z3.is_true(v):
+        return True
+    if z3.is_false(v):
+        return False
+    subs = []
+    seen = set()
+
+    def walk(e):
+        if e.get_id() in seen:
+            return
+        seen.add(e.get_id())
+        if z3.is_app(e) and e.decl().kind() == z3.Z3_OP_TO_INT:
+            c = z3.simplify(e.arg(0))
+            if z3.is_algebraic_value(c):
+                lo, hi = c.approx(40), c.approx(40)
+                q = Fraction(lo.numerator_as_long(), lo.denominator_as_long())
+                fl = q.numerator // q.denominator
+                if min(q - fl, fl + 1 - q) > Fraction(1, 10 ** 30):
+                    subs.append((e, z3.IntVal(fl, ctx=e.ctx)))
+                return
+        for ch in e.children():
+            walk(ch)
+    walk(v)
+    if not subs:
+        return False
+    return z3.is_true(z3.simplify(z3.substitute(v, *subs)))
 
 
 def val_to_py(v):
@@ -791,6 +849,10 @@ def discharge_local(obls, timeout_ms=20000, seed=0):
             o.status, o.backend, o.time = 'valid', 'trivial', 0.0
             continue
         o.smt = to_smt2(o.hyps, o.goal)
+        if os.environ.get('VERIF_DUMP_SMT'):
+            import re as _re
+            os.makedirs(os.environ['VERIF_DUMP_SMT'], exist_ok=True)
+            open(os.path.join(os.environ['VERIF_DUMP_SMT'], _re.sub(r'[^A-Za-z0-9_.-]+', '_', f'{o.contract}-{o.case}-{o.name}-{o.path}')[:150] + '.smt2'), 'w').write(o.smt)
         idx, status, t, model, backend, reason = _solve((i, o.smt, timeout_ms, seed))
         o.time, o.backend = t, backend
         if status == 'unsat':
